@@ -23,7 +23,7 @@ def universe_json(drive, kind, uname, size, seed):
 
 
 def write_mc(work, name, uni, emit, max_depth=0, ramp=False, switches=None, invariants=None, props=None, view=True,
-             extra_inv=None, start_full=False):
+             extra_inv=None, start_full=False, cov=False):
     sw = dict(DEFAULT_SWITCHES)
     if switches:
         sw.update(switches)
@@ -41,8 +41,9 @@ def write_mc(work, name, uni, emit, max_depth=0, ramp=False, switches=None, inva
     prs = props if props is not None else ARTTREE_PROPS
     with open(os.path.join(work.specdir, mod + ".cfg"), "w") as f:
         f.write("CONSTANTS\n Keys <- MCKeys\n RangeBad <- MCRangeBad\n Family = \"%s\"\n" % uni["family"])
-        f.write(" EmitEdges = %s\n MaxDepth = %d\n Ramp = %s\n StartFull = %s\n" % (
-            "TRUE" if emit else "FALSE", max_depth, "TRUE" if ramp else "FALSE", "TRUE" if start_full else "FALSE"))
+        f.write(" EmitEdges = %s\n MaxDepth = %d\n Ramp = %s\n StartFull = %s\n CovOn = %s\n" % (
+            "TRUE" if emit else "FALSE", max_depth, "TRUE" if ramp else "FALSE", "TRUE" if start_full else "FALSE",
+            "TRUE" if cov else "FALSE"))
         for k, v in sw.items():
             f.write(" %s = %s\n" % (k, v))
         f.write("INIT Init\nNEXT Next\n")
@@ -52,8 +53,35 @@ def write_mc(work, name, uni, emit, max_depth=0, ramp=False, switches=None, inva
             f.write("INVARIANTS\n" + "".join("  %s\n" % i for i in invs))
         if prs and max_depth == 0:
             f.write("PROPERTIES\n" + "".join("  %s\n" % p for p in prs))
+        if cov:
+            f.write("POSTCONDITION CovReport\n")
         f.write("CHECK_DEADLOCK FALSE\n")
     return mod
+
+
+def model_coverage(work, drive, cases, seed=1):
+    """Vacuity report: how often each tagged code path of the L1 model was evaluated by TLC over the given closed
+    universes (one worker; counters live in TLC registers). cases: [(kind, universe, size)]."""
+    names, total = None, None
+    for kind, uname, size in cases:
+        uni = universe_json(drive, kind, uname, size, seed)
+        mod = write_mc(work, "cov_%s_%s" % (kind.replace("/", "_"), uname), uni, emit=False, props=[], cov=True)
+        # registers must exist before the first Cov(): initialise them through an ASSUME-like constant evaluation in Init
+        src = os.path.join(work.specdir, mod + ".tla")
+        txt = open(src).read().replace("EXTENDS ArtTree", "EXTENDS ArtTree\nASSUME CovInit")
+        open(src, "w").write(txt)
+        out = work.fresh("covout")
+        r = run_model(work, mod, out, workers=1, timeout=1800)
+        m = re.search(r'"COV",\s*"\[([0-9, ]+)\]"', r.out_tail)
+        if not m:
+            return {"error": "no coverage report: " + (r.error or r.out_tail[-300:])}
+        counts = [int(x) for x in m.group(1).split(",")]
+        total = counts if total is None else [a + b for a, b in zip(total, counts)]
+    spec = open(os.path.join(work.specdir, "ArtTree.tla")).read()
+    mm = re.search(r"CovNames == <<(.*?)>>", spec, re.S)
+    names = re.findall(r'"([^"]+)"', mm.group(1))
+    return {"evaluations_per_code_path": dict(zip(names, total)), "never_evaluated": [n for n, c in zip(names, total) if c == 0],
+            "universes": ["%s:%s" % (k, u) for k, u, _ in cases]}
 
 
 _edge_re = re.compile(r'^<<"(EDGE|HIST)", "(.*)">>$')
